@@ -8,7 +8,7 @@ from .. import cv, gen, lib, ref
 from ..lib import call
 
 PROP = "C12"
-PLAN = {"quick": (1600, 400), "thorough": (240000, 3600)}
+PLAN = {"quick": (2400, 400), "thorough": (240000, 3600)}
 LARGE = (0.02, 24)  # (share, largest size) of the large class of gen.kv: 17+ control points, degree up to 8
 STEP_BUDGET = 20_000_000  # loop line events per outermost call: ten times the default, for the large class
 RULE = ("case = (knot vector with non uniform / repeated knots, optional weights, data points or an in-space function, "
@@ -29,15 +29,15 @@ def gen_case(rng, idx, tier):
     W = gen.weights(rng, n, 9) if rng.random() < 0.35 else None
     dim = rng.choice([0, 0, 2])
     a, b = U[0], U[-1]
-    kind = rng.choice(["over", "over", "interp", "repro", "repro", "function", "function", "toofew"])
+    kind = rng.choice(["over", "over", "interp", "repro", "repro", "function", "function", "toofew", "reprosq", "reprosq"])
     d = {"U": lib.enc(U), "W": lib.enc(W), "numtype": nt, "kind": kind, "dim": dim}
     if kind == "function":
         d["P0"] = lib.enc(gen.points(rng, n, dim))
         return d
     if kind == "toofew":
         cnt = rng.randint(0, n - 1)
-    elif kind == "interp":
-        cnt = n
+    elif kind in ("interp", "reprosq"):
+        cnt = n  # reprosq: samples of an in-space curve at exactly npts nodes (square system, control points judged)
     else:
         cnt = n + rng.randint(1, 6)
     default = rng.random() < 0.35
@@ -46,7 +46,7 @@ def gen_case(rng, idx, tier):
     else:
         pool = sorted({a + (b - a) * F(i, 41) for i in range(0, 42)} | set(ref.distinct(U)))
         nodes = sorted(rng.sample(pool, min(cnt, len(pool))))
-        if kind == "interp" and len(nodes) >= 2 and rng.random() < 0.35:
+        if kind in ("interp", "reprosq") and len(nodes) >= 2 and rng.random() < (0.7 if kind == "reprosq" else 0.35):
             # two interpolation nodes 3e-5..3e-4 of the interval apart: a legal, moderately ill-conditioned square system
             # (condition number 1e3..1e5), where a solver that squares the condition number loses 1e-8..1e-6
             i = rng.randrange(len(nodes) - 1)
@@ -58,7 +58,7 @@ def gen_case(rng, idx, tier):
         cnt = len(nodes)
     d["nodes"] = lib.enc(nodes)
     d["count"] = cnt
-    if kind == "repro":
+    if kind in ("repro", "reprosq"):
         d["P0"] = lib.enc(gen.points(rng, n, dim))
     else:
         d["Z"] = lib.enc(gen.points(rng, cnt, dim))
@@ -144,7 +144,7 @@ def run_case(case, ctx):
         zq = default_nodes(Uq, cnt, exact)
         if zq is None:
             return
-    if kind == "repro":
+    if kind in ("repro", "reprosq"):
         P0 = lib.dec(case["P0"])
         rc0 = lib.case_rc(U, P0, W, nt)
         Zq = [rc0(z) for z in zq]
@@ -168,6 +168,7 @@ def run_case(case, ctx):
         ctx.count("rank_deficient")
         return
     ctx.count("fits")
+    cond = 1.0
     if not exact:
         # float verdicts only on numerically well-posed collocation problems: clustered nodes or default nodes on a
         # discontinuous basis give full rank matrices with condition numbers far beyond what 1e-8 can be asked of
@@ -199,9 +200,13 @@ def run_case(case, ctx):
     if len(zq) == n:
         w = max(abs(x) for row in R for x in row)
         ctx.check(w == 0 if exact else float(w) <= 1e-8 * sc, f"fitpoints:interpolation:{feat}", f"len(points) == npts but the curve misses a point by {float(w)!r}")
-    if kind == "repro":
+    if kind in ("repro", "reprosq"):
         ctx.count("reproductions")
         if exact:
             ctx.check(Q == rc0.P, f"fitpoints:reproduce:{feat}", "samples of an in-space curve are not reproduced")
         else:
-            ctx.check(all(abs(float(a) - float(b)) <= 1e-7 * sc for pa, pb in zip(Q, rc0.P) for a, b in zip(pa, pb)), f"fitpoints:reproduce:{feat}", "samples of an in-space curve are not reproduced")
+            # square systems are solved directly: the control points are accurate to a small multiple of cond * eps
+            # (observed: 1.2e-15 * cond); a solver that squares the condition number is 1e3 times worse at cond = 1e4
+            tol = max(1e-11, 2e-13 * cond) if len(zq) == n else 1e-7
+            worst = max(abs(float(a) - float(b)) for pa, pb in zip(Q, rc0.P) for a, b in zip(pa, pb))
+            ctx.check(worst <= tol * sc, f"fitpoints:reproduce:{feat}", f"samples of an in-space curve are not reproduced: control points off by {worst!r} (condition number {cond:.1e})")
